@@ -296,6 +296,7 @@ def main():
     engines_run = []
     known = [k for k in load_known() if k.get("property") == pid and k.get("status") == "known"]
     known_hits = {}
+    counters = {}
     for eng in spec["engines"]:
         name = eng["name"]
         if ("Corr_" + name) not in built:
@@ -320,7 +321,17 @@ def main():
             if not cases:
                 continue
             engines_run.append(f"{name}/{profile}")
-            bc, bo, errs = coqeval.evaluate(name, f"{pid}_{profile}", cases)
+            oracle_fn = eng.get("oracle", spec.get("oracle", "oracle"))
+            known_fns = eng.get("known", {})          # finding id -> Corr function that is true on its manifestations
+            extra_fns = eng.get("count", [])           # informational counters
+            funcs = ["corr", oracle_fn] + ["+" + f for f in known_fns.values()] + ["+" + f for f in extra_fns]
+            res, errs = coqeval.evaluate(name, f"{pid}_{profile}", cases, funcs=tuple(funcs), shard=eng.get("shard", 400))
+            bc, bo = res["corr"], res[oracle_fn]
+            for kid, fn in known_fns.items():
+                for i in res["+" + fn]:
+                    known_hits.setdefault(kid, {"engine": name, "profile": profile, "index": i, "case": cases[i]})
+            for fn in extra_fns:
+                counters[fn] = counters.get(fn, 0) + len(res["+" + fn])
             for e in errs:
                 coq_errors.append(f"{name}: {e['err'][-600:]}")
             total_cases += len(cases)
@@ -351,19 +362,14 @@ def main():
         return min(fails, key=lambda f: len(json.dumps(f["case"]["i"])))
 
     # known findings: an oracle failure whose case is tagged with a listed finding id
-    new_oracle = []
-    for f in oracle_fail:
-        kid = None
-        for t in f["case"].get("tags", []):
-            if t.startswith("known:"):
-                kid = t[6:]
-        if kid and any(k["id"] == kid for k in known):
-            known_hits.setdefault(kid, f)
-        else:
-            new_oracle.append(f)
+    new_oracle = list(oracle_fail)   # the oracle functions already return true on the listed known classes
     for k in known:
-        if k["id"] in known_hits or k.get("always_report"):
+        if k["id"] in known_hits:
             lines.append(f"KNOWN-FINDING: property={pid} {k['what']}")
+        else:
+            # the witness of a listed finding is in the corpus and runs first: if it no longer manifests
+            # nothing is reported for it (the finding may have been repaired)
+            log(f"known finding {k['id']} did not manifest in this run")
 
     if new_oracle:
         f = shrink_pick(new_oracle)
@@ -418,6 +424,7 @@ def main():
             "correspondence_disagreements": len(corr_fail),
             "oracle_failures_on_impl": len(oracle_fail),
             "known_findings_replayed": sorted(known_hits.keys()),
+            "counters": counters,
             "proof_problems": proof_problems,
             "exhaustive": bool(spec.get("exhaustive_note")),
             "exhaustive_note": spec.get("exhaustive_note", ""),
